@@ -12,6 +12,7 @@ DOC = {
                    'uniqueness test keyed by the path, not by an adjacent-only dedup (R6); a length changed by the hash function reaches every path of the inode (R7 = C01.R6); '
                    'offset arithmetic in the stages is guarded (R8 = C13.R4).',
     'rules': {
+        'C03.M': __import__('fcverif.rules.common', fromlist=['MANDATORY_TEXT']).MANDATORY_TEXT,
         'C03.R1': 'group_files: size -> same-path removal -> prefix -> suffix -> contents, each stage consuming the previous result',
         'C03.R2': 'intermediate stages filter with the permissive matches (re-evaluates C06.R3 intermediate clauses)',
         'C03.R3': 'the last stage on every branch filters with matches_strictly (re-evaluates C06.R3)',
@@ -34,6 +35,8 @@ def run(ctx):
     r5(ctx)
     r6(ctx)
     r78(ctx)
+    from .common import run_mandatory
+    run_mandatory(ctx, 'C03')
 
 
 def r1(ctx):
